@@ -6,7 +6,12 @@ valid class and has to survive ``Settings.writeToYamlStream(style)`` -> ``Settin
 the near-miss class and has to raise on ``cs[name] = bad`` and on read, leaving the previous value in place.  Plus
 structured generators (crossSectionControl, cycles, tightCouplingSettings, option lists, a plugin-contributed
 FlagListSetting), subsets of 1-40 settings changed at once, all three styles, renames from ``oldNames`` and the three
-ways of copying a Settings object (duplicate / modified / pickle, + deepcopy and getSetting).
+ways of copying a Settings object (duplicate / modified / pickle, + deepcopy and getSetting; ``modified`` with plain values,
+with a Setting instance as value and with keys the app does not define).  Shard ``flags`` registers a test plugin that also
+contributes ``settings.Option`` and ``settings.Default`` entries (before and after the setting they modify is defined): the
+contributed options are admitted and round-trip, non-options stay refused, the new default is what the short style omits and
+the old default is what it now writes.  Second generation: the text written from the settings that were read back names the
+same keys with the same values as the first text.
 
 Oracles (independent of the reader/writer under test): a dict model {name: canonical(held value)} taken before the
 write; the expected key set of each style computed from ``value == default``; an independent safe-YAML parse of the text
@@ -25,30 +30,38 @@ PROP = "C17"
 LEVEL = "exploration"
 RULE = (
     "per-setting: every setting of the stock App x every value of a typed YAML-hostile pool (+ structured generators for "
-    "crossSectionControl, cycles, tightCouplingSettings, option lists, a plugin FlagListSetting), classified by the setting's own "
+    "crossSectionControl, cycles, tightCouplingSettings, option lists, a plugin FlagListSetting, plugin-contributed Options and Defaults), classified by the setting's own "
     "schema into valid (round-tripped, styles short/medium/full) and near-miss (must raise on assignment and on read, old value kept); "
-    "subsets: 1-40 settings changed at once, random style, fresh or already-modified target, copies mutated afterwards. "
+    "subsets: 1-40 settings changed at once (and once: all of them), random style, fresh or already-modified target, second-generation write, "
+    "copies (duplicate/pickle/deepcopy/modified with plain values, Setting instances and undefined keys) mutated afterwards. "
     "A case = (setting or subset, canonical held value(s), style); distinct = distinct such tuples; non-trivial = at least one "
     "setting differs from its default or a value is refused."
 )
 TOLERANCES = {"stored_values": "exact, type-strict (bool/int/float/str/list/dict/None), NaN==NaN, -0.0==0.0, tuple==list, dict order ignored"}
 EXHAUSTIVE = {"quick": True, "thorough": True}
 EXHAUSTIVE_PART = ("all settings of the stock App: default written explicitly and read back, pristine settings x 3 styles, "
-                   "every oldName, every option of every option list, every pool value per setting (values inside each class are sampled)")
-TIMEOUT = {"quick": 600, "thorough": 3600}
+                   "every oldName, every option of every option list, every pool value per setting (values inside each class are sampled); "
+                   "shard flags: every Option and Default the test plugin contributes (each option x 3 styles, each old default x 3 styles)")
+TIMEOUT = {"quick": 3600, "thorough": 14400}  # watchdog only; sized for a machine shared with ~10 other checks (10x slow-down observed)
 ASSUMPTIONS = [
     "the declared schema of a setting (voluptuous object in a pristine getApp().getSettings() definition) is the specification of its valid class",
-    "shard 'flags' registers one extra test plugin that contributes two FlagListSettings (the stock App defines none) and one setting with a never-expiring, a future and an expired old name; all other shards use the stock App",
+    "shard 'flags' registers one extra test plugin that contributes two FlagListSettings (the stock App defines none), one setting with a never-expiring, a future and an expired old name, "
+    "two enforced-option settings of its own, and settings.Option / settings.Default entries for them and for neutronicsKernel, boundaries, comment, burnSteps, stationaryBlockFlags, buGroups, availabilityFactor "
+    "(no stock plugin contributes an Option or a Default); all other shards use the stock App",
     "logging settings (verbosity, branchVerbosity, moduleVerbosity) are only given documented level names because loading applies them to the process logger",
 ]
 FLOORS = {
-    "quick": {"setting.enumerated": 154, "roundtrip.compare": 6000, "style.keys": 6000, "reject.assign": 2500, "reject.read": 700,
-              "rename": 30, "copy.equal": 300, "copy.independent": 300, "default.explicit": 154, "subset.case": 200,
-              "structured.value": 90, "flaglist.roundtrip": 30,
+    "quick": {"setting.enumerated": 120, "roundtrip.compare": 6000, "style.keys": 6000, "reject.assign": 2500, "reject.read": 700,
+              "rename": 30, "copy.equal": 300, "copy.independent": 300, "default.explicit": 120, "subset.case": 120,
+              "structured.value": 55, "flaglist.roundtrip": 30,
+              "copy.modified-instance": 250, "copy.modified-instance-subclass": 6, "second.generation": 800, "all.changed": 600,
+              "plugin.option": 20, "plugin.default": 25, "hook:Setting.addOptions": 2000, "hook:Setting.changeDefault": 4000,
               "hook:SettingsWriter.writeYaml": 6000, "hook:SettingsReader._applySettings": 20000, "hook:Setting.setValue": 20000},
-    "thorough": {"setting.enumerated": 154, "roundtrip.compare": 40000, "style.keys": 40000, "reject.assign": 10000, "reject.read": 5000,
-                 "rename": 100, "copy.equal": 4000, "copy.independent": 4000, "default.explicit": 154, "subset.case": 5000,
+    "thorough": {"setting.enumerated": 120, "roundtrip.compare": 40000, "style.keys": 40000, "reject.assign": 10000, "reject.read": 5000,
+                 "rename": 100, "copy.equal": 4000, "copy.independent": 4000, "default.explicit": 120, "subset.case": 3600,
                  "structured.value": 2000, "flaglist.roundtrip": 500,
+                 "copy.modified-instance": 800, "copy.modified-instance-subclass": 6, "second.generation": 8000, "all.changed": 600,
+                 "plugin.option": 20, "plugin.default": 25, "hook:Setting.addOptions": 10000, "hook:Setting.changeDefault": 20000,
                  "hook:SettingsWriter.writeYaml": 40000, "hook:SettingsReader._applySettings": 200000, "hook:Setting.setValue": 200000},
 }
 
@@ -60,13 +73,14 @@ STRUCTURED = ("crossSectionControl", "cycles", "tightCouplingSettings")
 
 def plan(tier, seed):
     q = tier == "quick"
-    n_each, n_sub, per_sub = (11, 3, 80) if q else (16, 6, 1200)
-    shards = [{"name": "defaults", "kind": "defaults"}]
+    n_each, n_sub, per_sub = (12, 2, 120) if q else (16, 6, 1200)
+    # longest first (measured shard CPU: flags ~ the heaviest each-shard in the thorough tier, defaults a few seconds)
+    shards = [{"name": "flags", "kind": "flags", "n": 60 if q else 2500}]
     for k in range(n_each):
         shards.append({"name": "each-%d" % k, "kind": "each", "k": k, "of": n_each, "nrand": 6 if q else 250, "nstruct": 40 if q else 1500})
     for k in range(n_sub):
         shards.append({"name": "subsets-%d" % k, "kind": "subsets", "n": per_sub})
-    shards.append({"name": "flags", "kind": "flags", "n": 60 if q else 2500})
+    shards.append({"name": "defaults", "kind": "defaults"})
     return shards
 
 
@@ -80,8 +94,13 @@ def run_shard(spec, rec):
     hooks.wrap(settingsIO.SettingsWriter, "writeYaml")
     hooks.wrap(settingsIO.SettingsReader, "_applySettings")
     hooks.wrap(setting.Setting, "setValue")
+    hooks.wrap(setting.Setting, "addOptions")
+    hooks.wrap(setting.Setting, "changeDefault")
     rng = random.Random(spec["rng"])
     {"defaults": do_defaults, "each": do_each, "subsets": do_subsets, "flags": do_flags}[spec["kind"]](spec, rec, rng)
+    import time
+
+    rec.note("cpu_s/%s" % spec["name"], round(time.process_time(), 1))  # observation only (shard balance), never used for a verdict
 
 
 # ----------------------------------------------------------------------------- canonical form of a held value
@@ -166,6 +185,36 @@ def yaml_library_roundtrips(name, value):
         except Exception:
             _CONTROL_CACHE[ck] = False
     return _CONTROL_CACHE[ck]
+
+
+_CONTROL2_CACHE = {}
+
+
+def yaml_library_regenerates(name, plain):
+    """Second-generation control WITHOUT armi: a plain value dumped by ruamel.yaml (configured as the settings writer configures it),
+    loaded with the round-trip loader (what the settings reader uses) and dumped again - do both texts parse to the same value?
+    False => the YAML library itself drifts (e.g. a round-trip-loaded ScalarFloat such as 7.71497280359484e-13 is re-emitted by
+    ruamel.yaml 0.19 as 7.71497280359483e-13: its representer truncates the mantissa to the digits it counted in the source text)."""
+    from ruamel.yaml import YAML
+
+    ck = name + json.dumps(canon(plain), sort_keys=True)
+    if ck not in _CONTROL2_CACHE:
+        try:
+            def dump(obj):
+                y = YAML()
+                y.default_flow_style = False
+                y.indent(mapping=2, sequence=4, offset=2)
+                st = io.StringIO()
+                y.dump(obj, st)
+                return st.getvalue()
+
+            t1 = dump({"settings": {name: plain}})
+            t2 = dump(YAML(typ="rt").load(io.StringIO(t1)))
+            safe = lambda t: YAML(typ="safe", pure=True).load(io.StringIO(t))["settings"][name]
+            _CONTROL2_CACHE[ck] = canon(safe(t1)) == canon(safe(t2))
+        except Exception:
+            _CONTROL2_CACHE[ck] = False
+    return _CONTROL2_CACHE[ck]
 
 
 def yaml_limit(ctx, src, names, label_of):
@@ -579,15 +628,21 @@ def _eq_default(value, default):
         return False
 
 
-def yaml_keys(text):
-    """Independent parse of the text the writer produced: set of setting keys, or None when the text is not valid YAML."""
+def yaml_settings(text):
+    """Independent parse of the text the writer produced: {setting key: plain value}, or None when the text is not valid YAML."""
     from ruamel.yaml import YAML
 
     try:
         doc = YAML(typ="safe", pure=True).load(io.StringIO(text))
-        return set(doc["settings"].keys())
+        return dict(doc["settings"])
     except Exception:
         return None
+
+
+def yaml_keys(text):
+    """Set of setting keys in the written text (independent parse), or None when the text is not valid YAML."""
+    doc = yaml_settings(text)
+    return None if doc is None else set(doc.keys())
 
 
 def quiet_load(cs, text):
@@ -632,6 +687,31 @@ class Ctx:
             self._valid_cache[name] = pick
         p = self._valid_cache[name]
         return None if p is None else (p[0], copy.deepcopy(p[1]))
+
+    def nth_valid(self, name, k):
+        """The k-th (cyclically) distinct schema-admitted, non-default pool value for `name`: (label, value) or None."""
+        key = ("nth", name)
+        if key not in self._valid_cache:
+            s = self.D[name]
+            vals, seen = [], set()
+            for lab, v in base_pool():
+                if in_domain(name, v) and admits(s, v) and must_reject(s, v) is None:
+                    try:
+                        out = s.schema(copy.deepcopy(v))
+                    except Exception:
+                        continue
+                    h = json.dumps(canon(out), sort_keys=True)
+                    if not _eq_default(out, s.default) and h not in seen:
+                        seen.add(h)
+                        vals.append((lab, v))
+                    if len(vals) >= 8:
+                        break
+            self._valid_cache[key] = vals
+        vals = self._valid_cache[key]
+        if not vals:
+            return None
+        lab, v = vals[k % len(vals)]
+        return lab, copy.deepcopy(v)
 
     def unreadable_defaults(self, report=False):
         """Settings whose default, written explicitly by the real writer (medium style, listed as set by user), the real reader refuses.
@@ -693,10 +773,12 @@ def expected_keys(ctx, src, style, setByUser):
     return exp | {"versions"}, nondef
 
 
-def roundtrip(ctx, src, style, setByUser, changed, where, tgt=None, allnames=None):
+def roundtrip(ctx, src, style, setByUser, changed, where, tgt=None, allnames=None, gen2=False):
     """Write `src` with the real writer, read with the real reader, compare every setting with the dict model.
 
     changed: {name: value-class label} of the settings the case assigned (for mechanism keys).
+    gen2: when the first generation came back exactly (fresh target, no difference of any kind), write the loaded settings again
+    with the same style: the second text has to name the same keys with the same values (independent parse of both texts).
     Returns the loaded Settings or None.
     """
     from armi import settings
@@ -722,7 +804,11 @@ def roundtrip(ctx, src, style, setByUser, changed, where, tgt=None, allnames=Non
         return None
     # --- which keys were written (independent parse) vs which the style promises
     exp, nondef = expected_keys(ctx, src, style, setByUser)
-    keys = yaml_keys(text)
+    doc1 = yaml_settings(text)
+    keys = None if doc1 is None else set(doc1.keys())
+    fresh_target = tgt is None
+    nviol0 = sum(rec.viol_count.values())
+    exact = True
     if keys is not None:
         rec.hit("style.keys")
         for n in sorted(exp - keys):
@@ -755,6 +841,7 @@ def roundtrip(ctx, src, style, setByUser, changed, where, tgt=None, allnames=Non
             continue
         expect = want[n] if n in written else before[n]
         if got[n] != expect:
+            exact = False
             if n in changed and yaml_limit(ctx, src, [n], changed):
                 continue
             if n in changed:
@@ -775,7 +862,40 @@ def roundtrip(ctx, src, style, setByUser, changed, where, tgt=None, allnames=Non
             rec.violation("roundtrip/versions-not-stamped", "versions read back without the 'armi' stamp", wit)
     else:
         rec.violation("roundtrip/versions-lost/not-a-dict", "versions is %s after the round trip" % show(held(tgt, "versions")), wit)
+    if gen2 and fresh_target and exact and doc1 is not None and sum(rec.viol_count.values()) == nviol0:
+        second_generation(ctx, tgt, style, setByUser, doc1, changed, wit, mech)
     return tgt
+
+
+def second_generation(ctx, loaded, style, setByUser, doc1, changed, wit, mech):
+    """write -> read -> write: the settings that were read back equal the ones written (just established by the caller), so the text
+    written from them (same style, same settingsSetByUser) must name the same keys with the same values as the first text."""
+    rec = ctx.rec
+    try:
+        text2 = write(loaded, style, setByUser)
+    except Exception as e:
+        rec.violation("roundtrip/second-generation/write-raises/%s" % type(e).__name__,
+                      "settings read back from armi-written %s-style text cannot be written again: %s: %s" % (style, type(e).__name__, str(e)[:300]), wit)
+        return
+    doc2 = yaml_settings(text2)
+    if doc2 is None:
+        rec.violation("roundtrip/second-generation/unparsable-text", "second-generation %s-style text is not valid YAML although the first one was" % style, dict(wit, text=text2[:600]))
+        return
+    rec.hit("second.generation")
+    k1, k2 = set(doc1), set(doc2)
+    if k1 != k2:
+        rec.violation("roundtrip/second-generation/keys-differ/%s" % style,
+                      "write/read/write with style %r: second text lacks %s and adds %s" % (style, sorted(k1 - k2, key=repr)[:10], sorted(k2 - k1, key=repr)[:10]), wit)
+    for n in sorted(k1 & k2, key=repr):
+        if canon(doc1[n]) != canon(doc2[n]):
+            if not yaml_library_regenerates(n, doc1[n]):
+                rec.skip("second generation: value that ruamel.yaml itself re-emits differently after a round-trip load (control experiment without armi); class %s" % changed.get(n, "default"))
+                lst = rec.notes.setdefault("yaml_library_second_generation_drift_samples", [])
+                if len(lst) < 2:
+                    lst.append({"setting": n, "first": show(doc1[n])[:200], "second": show(doc2[n])[:200]})
+                continue
+            rec.violation("roundtrip/second-generation/value-differs/%s" % (mech(n) if n in ctx.D else "unknown-key"),
+                          "write/read/write with style %r: %s is written as %s the first time and as %s the second time" % (style, n, show(doc1[n]), show(doc2[n])), dict(wit, setting=n))
 
 
 def _attribute(ctx, src, changed, phase):
@@ -912,7 +1032,7 @@ def mutate_inplace(v, rng, depth=0):
     return False
 
 
-def check_copies(ctx, src, rng, changed, pick_valid, pick_invalid, where):
+def check_copies(ctx, src, rng, changed, pick_valid, pick_invalid, where, instance=True):
     """duplicate / modified / pickle / deepcopy: equal values, schemas alive, and no aliasing in either direction."""
     from armi import settings
 
@@ -932,23 +1052,53 @@ def check_copies(ctx, src, rng, changed, pick_valid, pick_invalid, where):
             want_mod[n] = canon(held(ref, n))
         except Exception:
             new = {k: x for k, x in new.items() if k != n}
-    makers = [("duplicate", lambda: src.duplicate(), want), ("pickle", lambda: pickle.loads(pickle.dumps(src)), want),
-              ("deepcopy", lambda: copy.deepcopy(src), want), ("modified", lambda: src.modified(newSettings=copy.deepcopy(new)), want_mod)]
-    for how, make, expect in makers:
+    makers = [("duplicate", lambda: src.duplicate(), want, {}), ("pickle", lambda: pickle.loads(pickle.dumps(src)), want, {}),
+              ("deepcopy", lambda: copy.deepcopy(src), want, {}), ("modified", lambda: src.modified(newSettings=copy.deepcopy(new)), want_mod, {})]
+    # modified() with its two other documented kinds of entry: a Setting INSTANCE as value (installed as a copy of that instance) and
+    # keys the app does not define (a new Setting is made up for them), next to plain values.
+    inst_new, want_inst, extra = _modified_instance_case(ctx, src, rng, pick_valid, new, want_mod) if instance else (None, None, None)
+    if inst_new is not None:
+        makers.append(("modified-instance", lambda: src.modified(newSettings=inst_new), want_inst, extra))
+    keys0 = set(live(src).keys())
+    for how, make, expect, extra_keys in makers:
         try:
             c = make()
         except Exception as e:
             rec.violation("copy/%s/raises/%s" % (how, type(e).__name__), "%s of a valid Settings object raised %s: %s" % (how, type(e).__name__, str(e)[:300]), wit)
             continue
         rec.hit("copy.equal")
+        if how == "modified-instance":
+            rec.hit("copy.modified-instance")
         got = snapshot(c)
         diff = [n for n in ctx.names if got.get(n) != expect[n]]
         if diff:
             n = diff[0]
             rec.violation("copy/%s/values-differ/%s" % (how, skind(ctx.D[n])), "%s copy: %s is %s, original holds %s%s" % (how, n, show(held(c, n)), show(held(src, n)),
                           " (newSettings %s)" % show(new.get(n)) if n in new else ""), dict(wit, differing=diff[:10]))
+        # key sets: the copy defines what the original defines plus exactly the undefined keys it was given; the original gains nothing
+        ckeys = set(live(c).keys())
+        if ckeys != keys0 | set(extra_keys):
+            rec.violation("copy/%s/key-set-differs" % how, "%s copy: lacks the keys %s and has the unexpected keys %s" % (how, sorted(((keys0 | set(extra_keys)) - ckeys))[:10], sorted(ckeys - keys0 - set(extra_keys))[:10]),
+                          dict(wit, newSettings_keys=sorted(extra_keys)))
+        for k, cv in extra_keys.items():
+            if k in ckeys and canon(held(c, k)) != cv:
+                rec.violation("copy/%s/values-differ/undefined-key" % how, "%s copy: the key %r the app does not define was given %s and holds %s" % (how, k, json.dumps(cv)[:100], show(held(c, k))), wit)
         if want != snapshot(src):
             rec.violation("copy/%s/making-the-copy-changed-original" % how, "original changed while being copied", wit)
+        if set(live(src).keys()) != keys0:
+            rec.violation("copy/%s/making-the-copy-changed-original/keys" % how, "making the %s copy changed the key set of the original: gained %s, lost %s"
+                          % (how, sorted(set(live(src).keys()) - keys0)[:10], sorted(keys0 - set(live(src).keys()))[:10]), wit)
+            return
+        if extra_keys and rng.random() < 0.34:
+            # a copy of the copy (duplicate goes through __setstate__, which documents app-undefined Setting entries) keeps keys and values
+            try:
+                c2 = c.duplicate()
+                s1, s2 = snapshot(c), snapshot(c2)
+                if s1 != s2:
+                    d2 = [k for k in s1 if s2.get(k) != s1[k]] + [k for k in s2 if k not in s1]
+                    rec.violation("copy/%s/duplicate-of-copy-differs" % how, "duplicate() of the %s copy differs in %s" % (how, d2[:10]), wit)
+            except Exception as e:
+                rec.violation("copy/%s/duplicate-of-copy-raises/%s" % (how, type(e).__name__), "duplicate() of the %s copy raised: %s" % (how, str(e)[:300]), wit)
         # the copy still validates (schemas rebuilt)
         pi = pick_invalid(rng)
         if pi:
@@ -1020,6 +1170,87 @@ def check_copies(ctx, src, rng, changed, pick_valid, pick_invalid, where):
         rec.violation("copy/reverse/aliases-copy/inplace/%s" % skind(ctx.D[n]), "in-place edit of %s on the original changed an earlier copy" % n, dict(wit, moved=moved[:10]))
 
 
+UNDEFINED_KEY_VALUES = [3, "c17 text", 2.5, [1, 2], True, ["a", "b"], {"k": 1}, 0, ""]
+
+
+def _modified_instance_case(ctx, src, rng, pick_valid, new, want_mod):
+    """newSettings for Settings.modified holding one Setting instance with an edited value, one plain value of an undefined key, one
+    Setting instance under an undefined key, plus the plain values of `new`.  Returns (newSettings, expected snapshot of the defined
+    settings, {undefined key: expected canonical value}); (None, None, None) when no instance could be prepared."""
+    from armi.settings.setting import Setting
+
+    for _ in range(6):
+        pv = pick_valid(rng)
+        if not pv or pv[0] in new:
+            continue
+        n = pv[0]
+        if type(ctx.D[n]).__name__ != "Setting":
+            # XSSettingDef / TightCouplingSettingDef / FlagListSetting instances are judged by check_instance_subclass (value kept,
+            # copy writable and readable); Setting.__copy__ used to build a plain Setting from them (finding setting-subclass-lost)
+            ctx.rec.skip("modified(newSettings={name: Setting instance}) for a Setting subclass: not in this generator, judged by the monitor copy.modified-instance-subclass")
+            continue
+        try:
+            inst = src.getSetting(n)  # documented: a copy of the Setting object
+            inst.setValue(copy.deepcopy(pv[2]))
+        except Exception:
+            continue
+        want_inst = dict(want_mod)
+        want_inst[n] = canon(inst.value)  # taken before the call under test
+        plain = copy.deepcopy(rng.choice(UNDEFINED_KEY_VALUES))
+        sval = copy.deepcopy(rng.choice(UNDEFINED_KEY_VALUES))
+        try:
+            made = Setting("c17BrandNewSetting", default=copy.deepcopy(sval), description="Setting instance given to modified() under a key the app does not define")
+        except Exception:
+            continue
+        d = copy.deepcopy(new)
+        d[n] = inst
+        d["c17BrandNew"] = plain
+        d["c17BrandNewSetting"] = made
+        return d, want_inst, {"c17BrandNew": canon(plain), "c17BrandNewSetting": canon(sval)}
+    return None, None, None
+
+
+def check_instance_subclass(ctx, name, label, value):
+    """getSetting -> modified(newSettings={name: that Setting instance}) for a setting whose definition is a Setting SUBCLASS
+    (XSSettingDef, TightCouplingSettingDef, FlagListSetting): the modified copy holds the same value and is a Settings object like
+    any other, i.e. it can be written and read back."""
+    from armi import settings
+
+    rec = ctx.rec
+    kind = type(ctx.D[name]).__name__
+    cs = settings.Settings()
+    try:
+        cs[name] = copy.deepcopy(value)
+        want = canon(held(cs, name))
+        inst = cs.getSetting(name)
+        m = cs.modified(newSettings={name: inst})
+    except Exception as e:
+        rec.crash("modified-instance/%s" % kind, e, {"setting": name, "value": show(value)})
+        return
+    rec.hit("copy.modified-instance-subclass")
+    wit = {"setting": name, "definition": kind, "class": label, "value": show(value), "copied definition": type(live(m)[name]).__name__,
+           "script": "cs[%r] = v; m = cs.modified(newSettings={%r: cs.getSetting(%r)}); m.writeToYamlStream(stream, 'short', [])" % (name, name, name)}
+    if canon(held(m, name)) != want:
+        rec.violation("copy/modified-instance/values-differ/%s" % kind, "modified(newSettings={%r: cs.getSetting(%r)}) holds %s, original %s" % (name, name, show(held(m, name)), show(held(cs, name))), wit)
+        return
+    if canon(held(cs, name)) != want:
+        rec.violation("copy/modified-instance/making-the-copy-changed-original", "original changed while being copied", wit)
+    try:
+        text = write(m, "short")
+        tgt = settings.Settings()
+        quiet_load(tgt, text)
+    except Exception as e:
+        if not yaml_library_roundtrips(name, held(cs, name)):
+            rec.skip("value that ruamel.yaml itself does not round-trip (control experiment without armi); class %s" % label)
+            return
+        rec.violation("copy/modified-instance/setting-subclass-lost",
+                      "a Setting instance of type %s given to Settings.modified is installed as a plain Setting (Setting.__copy__ does not keep the subclass, so its dump() is lost): "
+                      "the modified copy cannot be written/read back: %s: %s" % (kind, type(e).__name__, str(e)[:200]), wit)
+        return
+    if canon(held(tgt, name)) != want and yaml_library_roundtrips(name, held(cs, name)):
+        rec.violation("copy/modified-instance/roundtrip-differs/%s" % kind, "modified copy written and read back: %s holds %s, original %s" % (name, show(held(tgt, name)), show(held(cs, name))), wit)
+
+
 def check_getsetting(ctx, src, rng, name):
     """Settings.getSetting returns a copy of the Setting: editing it leaves the Settings object alone."""
     rec = ctx.rec
@@ -1073,15 +1304,34 @@ def do_defaults(spec, rec, rng):
                                       % (style, type(e).__name__, str(e)[:120], n, ctx.D[n].default), {"style": style, "setting": n, "error": str(e)[:300]})
                 rec.case(["pristine", style, bool(user), "as-is"], nontrivial=True)
                 apply_workaround(ctx, src, changed, style, user)
-            t = roundtrip(ctx, src, style, user, changed, "pristine")
+            # gen2: write -> read -> write again, the second-generation text must name the same keys with the same values
+            t = roundtrip(ctx, src, style, user, changed, "pristine", gen2=True)
             rec.case(["pristine", style, bool(user)], nontrivial=True, sample={"pristine": style, "user_set": len(user)})
             if t is not None and style == "short":
                 check_copies(ctx, t, rng, {}, _picker(ctx, True), _picker(ctx, False), "pristine-loaded")
-    # write -> read -> write again: second generation text must name the same keys
     src = settings.Settings()
     t1 = write(src, "short")
     if yaml_keys(t1) != {"versions"}:
         rec.violation("style/short/writes-default", "pristine settings, short style: keys %s" % sorted(yaml_keys(t1) or []), {"text": t1[:300]})
+    # every setting changed from its default at once (k-th schema-admitted non-default pool value of each), all styles, second generation
+    for k in range(3):
+        for style in STYLES:
+            src = settings.Settings()
+            changed = {}
+            for n in ctx.names:
+                if n == "versions":
+                    continue
+                fv = ctx.nth_valid(n, k)
+                if fv is None:
+                    continue
+                try:
+                    src[n] = fv[1]
+                    changed[n] = fv[0]
+                except Exception:
+                    rec.reject("assignment refused a value the declared schema admits (over-rejection, allowed)")
+            rec.hit("all.changed", len(changed))
+            roundtrip(ctx, src, style, [], changed, "all-changed", gen2=True)
+            rec.case(["all-changed", k, style], nontrivial=True)
     do_renames(ctx, rec, rng, spec)
     for n in ctx.names:
         check_getsetting(ctx, settings.Settings(), rng, n)
@@ -1247,16 +1497,18 @@ def do_each(spec, rec, rng):
                     user = r.sample(ctx.names, r.randint(0, 12)) + ["notASetting"]
                 if style != "short":
                     apply_workaround(ctx, src, changed, style, user)
-                t = roundtrip(ctx, src, style, user, changed, "each")
+                t = roundtrip(ctx, src, style, user, changed, "each", gen2=(nvalid % (10 if quick else 3) == 1))
                 nsample += 1
                 rec.case(["each", name, h, style], nontrivial=nontriv,
                          sample={"setting": name, "class": lab, "assigned": show(v), "held": show(held(src, name)), "style": style} if nsample in (40, 41) else None)
                 if t is not None and style == "short" and nvalid % 7 == 3:
-                    check_copies(ctx, t, r, changed, _picker(ctx, True), _picker(ctx, False), "each-loaded")
+                    check_copies(ctx, t, r, changed, _picker(ctx, True), _picker(ctx, False), "each-loaded", instance=(not quick or nvalid % 21 == 3))
             if nvalid % 5 == 2:
                 src = settings.Settings()
                 src[name] = copy.deepcopy(v)
                 check_getsetting(ctx, src, r, name)
+            if type(s).__name__ != "Setting" and nontriv and nvalid % 5 == 3 and nvalid < (30 if quick else 300):
+                check_instance_subclass(ctx, name, lab, v)
         # ---- near-miss class: must raise and keep the previous value, on assignment and on read
         prevs = [None] + [v for _lab, v in valid[:40:7]]
         nread = 0
@@ -1344,7 +1596,7 @@ def do_subsets(spec, rec, rng):
         if viaFile:
             t = roundtrip_files(ctx, src, r, changed, i)
         else:
-            t = roundtrip(ctx, src, style, user, changed, "subset")
+            t = roundtrip(ctx, src, style, user, changed, "subset", tgt=tgt, gen2=True)
         rec.case(sig, nontrivial=bool(changed), sample={"subset": sorted(changed), "style": style, "dirty_target": dirty, "via_files": viaFile} if i < 2 else None)
         # near-miss inside a larger file: the refused key keeps its value
         if t is not None and r.random() < 0.5:
@@ -1437,7 +1689,149 @@ def roundtrip_files(ctx, src, r, changed, i):
     return cs2
 
 
-# ----------------------------------------------------------------------------- shard: plugin-contributed FlagListSetting
+# ----------------------------------------------------------------------------- shard: plugin-contributed FlagListSetting, Options, Defaults
+# What the test plugin contributes: (option, setting) and (new default, setting).  This spec - not the definitions armi builds from
+# it - is the oracle's knowledge of which options exist and which value is the default.
+C17_OPTIONS = [("c17Kernel", "neutronicsKernel"), ("c17KernelB", "neutronicsKernel"), ("C17Boundary", "boundaries"),
+               ("c", "c17Choice"), ("late1", "c17Late"), ("late2", "c17Late")]
+C17_DEFAULTS = [("c17Kernel", "neutronicsKernel"), ("b", "c17Choice"), ("late2", "c17Late"), ("c17 default comment", "comment"), (7, "burnSteps"),
+                (["FUEL", "c17 flag"], "stationaryBlockFlags"), ([5, 50], "buGroups"), (0.875, "availabilityFactor")]
+# (list-typed Defaults only for settings whose own default is a non-empty list: armi derives the element type check from the default
+#  the setting was DEFINED with, and changeDefault keeps that schema; an empty -> non-empty change would make "the type" ambiguous.)
+C17_OWN_OLD_DEFAULT = {"c17Choice": "a", "c17Late": ""}
+C17_MODIFIED = sorted({n for _v, n in C17_OPTIONS} | {n for _v, n in C17_DEFAULTS})
+
+
+def expected_options(name, stockD):
+    """Option list of `name` once the plugin's Options are applied: the setting's own list extended, in order (from the spec)."""
+    own = list(stockD[name].options or []) if name in stockD else {"c17Choice": ["a", "b"], "c17Late": []}[name]
+    return own + [o for o, n in C17_OPTIONS if n == name]
+
+
+def admits_expected(name, v, stockD):
+    """Is v a value the modified setting holds by the statement?  Enforced option list -> membership; otherwise unchanged type rules."""
+    if any(n == name for _o, n in C17_OPTIONS) or (name in stockD and stockD[name].options and stockD[name].enforcedOptions):
+        return any(v == o and type(v) is type(o) for o in expected_options(name, stockD))
+    return admits(stockD[name], v)
+
+
+def check_contributions(ctx, rec, rng, stockD):
+    """settings.Option / settings.Default contributed by a plugin (App.getSettings -> Setting.addOptions / changeDefault)."""
+    from armi import settings
+
+    # ---- the definitions themselves
+    for name in sorted({n for _o, n in C17_OPTIONS}):
+        rec.hit("plugin.option")
+        exp = expected_options(name, stockD)
+        if list(ctx.D[name].options or []) != exp:
+            rec.violation("plugin/option/list-not-extended", "%s: options are %s, expected its own list extended by the contributed ones: %s" % (name, show(ctx.D[name].options), exp), {"setting": name})
+        if list(live(settings.Settings())[name].options or []) != exp:
+            rec.violation("plugin/option/list-not-extended", "%s in a new Settings object: options are %s, expected %s" % (name, show(live(settings.Settings())[name].options), exp), {"setting": name})
+    newdef = {n: v for v, n in C17_DEFAULTS}
+    for name, v in sorted(newdef.items()):
+        rec.hit("plugin.default")
+        if canon(ctx.D[name].default) != canon(v):
+            rec.violation("plugin/default/definition-not-changed", "%s: a plugin contributed Default(%s) but the definition's default is %s" % (name, show(v), show(ctx.D[name].default)), {"setting": name})
+        cs = settings.Settings()
+        if canon(held(cs, name)) != canon(v):
+            rec.violation("plugin/default/value-not-changed", "%s: a plugin contributed Default(%s) but a new Settings object holds %s" % (name, show(v), show(held(cs, name))), {"setting": name})
+    # ---- pristine settings: the short style omits every (new) default
+    cs = settings.Settings()
+    try:
+        doc = yaml_settings(write(cs, "short"))
+        rec.hit("plugin.default")
+        if doc is not None and set(doc) != {"versions"}:
+            rec.violation("plugin/default/short-writes-new-default", "new Settings object, short style, wrote %s: the values contributed as Default are the defaults now" % sorted(set(doc) - {"versions"}),
+                          {"written": {k: show(x) for k, x in doc.items() if k != "versions"}})
+    except Exception as e:
+        rec.crash("plugin/write-pristine", e, {})
+    # ---- every option (own and contributed) is admitted and round-trips in every style; non-options stay refused
+    for name in sorted({n for _o, n in C17_OPTIONS}):
+        exp = expected_options(name, stockD)
+        for o in exp:
+            for style in STYLES:
+                rec.hit("plugin.option")
+                src = settings.Settings()
+                try:
+                    src[name] = copy.deepcopy(o)
+                except Exception as e:
+                    rec.violation("plugin/option/not-admitted", "%s = %r refused (%s): it is %s" % (name, o, type(e).__name__, "an option contributed by a plugin" if (o, name) in C17_OPTIONS else "one of the setting's own options"),
+                                  {"setting": name, "option": o})
+                    break
+                if canon(held(src, name)) != canon(o):
+                    rec.violation("plugin/option/holds-other-value", "%s = %r holds %s" % (name, o, show(held(src, name))), {"setting": name})
+                changed = {name: "plugin-option" if (o, name) in C17_OPTIONS else "own-option"}
+                apply_workaround(ctx, src, changed, style, [])
+                roundtrip(ctx, src, style, [name] if style == "medium" else [], changed, "plugin-option", gen2=True)
+                rec.case(["plugin-option", name, o, style], nontrivial=True, sample={"setting": name, "contributed option": o, "style": style} if (o, style) == ("c17KernelB", "short") else None)
+        bads = []
+        for o in exp:
+            bads += [o + "x", o[:-1], o.upper() if o.upper() != o else o.lower(), " " + o, [o]]
+        bads += ["", "notAnOption", None, 5, True, exp]
+        for bad in bads:
+            try:
+                if admits_expected(name, bad, stockD):
+                    continue
+            except Exception:
+                pass
+            for prev in (None, exp[0], exp[-1]):
+                cs = settings.Settings()
+                if prev is not None:
+                    try:
+                        cs[name] = prev
+                    except Exception:
+                        continue
+                check_reject_assign(ctx, cs, name, "plugin-non-option", bad, "not-an-option")
+                check_reject_read(ctx, cs, name, "plugin-non-option", bad)
+                rec.case(["plugin-non-option", name, show(bad), show(prev)], nontrivial=True)
+    # ---- the OLD default is an ordinary non-default value now: the short style writes it, and it reads back
+    for name, v in sorted(newdef.items()):
+        old = stockD[name].default if name in stockD else C17_OWN_OLD_DEFAULT[name]
+        if not admits_expected(name, old, stockD):
+            rec.skip("old default of %s is not among the options once a plugin contributed some: not assignable" % name)
+            continue
+        for style in STYLES:
+            rec.hit("plugin.default")
+            src = settings.Settings()
+            try:
+                src[name] = copy.deepcopy(old)
+            except Exception as e:
+                rec.crash("plugin/assign-old-default", e, {"setting": name, "old default": show(old)})
+                break
+            try:
+                doc = yaml_settings(write(src, style))
+            except Exception as e:
+                rec.crash("plugin/write-old-default", e, {"setting": name, "old default": show(old)})
+                break
+            if doc is not None and style == "short":
+                if set(doc) != {name, "versions"}:
+                    rec.violation("plugin/default/short-omits-old-default", "%s: default changed by a plugin from %s to %s; settings holding %s written in short style name the keys %s"
+                                  % (name, show(old), show(v), show(old), sorted(doc)), {"setting": name})
+                elif canon(doc[name]) != canon(old):
+                    rec.violation("plugin/default/old-default-written-wrong", "%s = %s written as %s" % (name, show(old), show(doc[name])), {"setting": name})
+            changed = {name: "old-default"}
+            apply_workaround(ctx, src, changed, style, [])
+            t = roundtrip(ctx, src, style, [], changed, "plugin-old-default", gen2=True)
+            if t is not None and canon(held(t, name)) != canon(old):
+                rec.violation("plugin/default/old-default-not-read-back", "%s = %s (the default before a plugin changed it to %s) reads back as %s after a %s-style write"
+                              % (name, show(old), show(v), show(held(t, name)), style), {"setting": name})
+            rec.case(["plugin-old-default", name, style], nontrivial=True, sample={"setting": name, "old default": show(old), "new default": show(v)} if (name, style) == ("comment", "short") else None)
+    # copies keep the changed default: a copy of new settings is still entirely at default (short style writes nothing)
+    for name, v in sorted(newdef.items()):
+        src = settings.Settings()
+        for how, make in (("duplicate", lambda: src.duplicate()), ("pickle", lambda: pickle.loads(pickle.dumps(src))), ("modified", lambda: src.modified(newSettings={}))):
+            rec.hit("plugin.default")
+            try:
+                c = make()
+                doc = yaml_settings(write(c, "short"))
+            except Exception as e:
+                rec.crash("plugin/copy-pristine/%s" % how, e, {})
+                continue
+            if canon(held(c, name)) != canon(v) or (doc is not None and set(doc) != {"versions"}):
+                rec.violation("plugin/default/copy-loses-new-default/%s" % how, "%s copy of new settings: %s holds %s (Default contributed: %s); short style writes %s"
+                              % (how, name, show(held(c, name)), show(v), sorted(doc or [])), {"setting": name})
+
+
 def do_flags(spec, rec, rng):
     from armi import getApp, plugins, settings
     from armi.reactor.flags import Flags
@@ -1445,20 +1839,45 @@ def do_flags(spec, rec, rng):
 
     from armi.settings.setting import FlagListSetting, Setting
 
+    from armi.settings.setting import Default, Option
+
+    stockD = defs()  # definitions of the stock App, before the test plugin: source of the OLD defaults / option lists
+
     class C17FlagPlugin(plugins.ArmiPlugin):
         @staticmethod
         @plugins.HOOKIMPL
         def defineSettings():
-            return [
+            # Option / Default entries follow the spec in C17_OPTIONS / C17_DEFAULTS (fresh objects on every call).
+            # c17Late: modifiers arrive BEFORE the setting is defined (cache path of App.getSettings); c17Choice and the framework
+            # settings: modifiers arrive AFTER the definition (direct path); neutronicsKernel (stock: options=[], enforced) and
+            # boundaries: whichever order pluggy calls the plugins in.
+            out = [
                 FlagListSetting("c17FlagsA", default=[], description="flag list contributed by the C17 test plugin"),
                 FlagListSetting("c17FlagsB", default=[Flags.FUEL, Flags.GRID_PLATE], description="flag list with a non-empty default"),
                 Setting("c17Renamed", default="", description="synthetic setting with a never-expiring, a future and an expired old name",
                         oldNames=[("c17OldActive", None), ("c17OldFuture", datetime.date(2999, 1, 1)), ("c17OldExpired", datetime.date(2000, 1, 1))]),
             ]
+            out += [Option(copy.deepcopy(o), n) for o, n in C17_OPTIONS if n == "c17Late"]
+            out += [Default(copy.deepcopy(v), n) for v, n in C17_DEFAULTS if n == "c17Late"]
+            out += [
+                Setting("c17Late", default=C17_OWN_OLD_DEFAULT["c17Late"], description="enforced options, none of its own (like neutronicsKernel)", options=[], enforcedOptions=True),
+                Setting("c17Choice", default=C17_OWN_OLD_DEFAULT["c17Choice"], description="enforced options, two of its own", options=["a", "b"], enforcedOptions=True),
+            ]
+            out += [Option(copy.deepcopy(o), n) for o, n in C17_OPTIONS if n != "c17Late"]
+            out += [Default(copy.deepcopy(v), n) for v, n in C17_DEFAULTS if n != "c17Late"]
+            return out
 
     getApp().pluginManager.register(C17FlagPlugin)
-    ctx = Ctx(rec)
+    try:
+        ctx = Ctx(rec)
+        settings.Settings()
+    except Exception as e:  # the contributions are well-formed: building the definitions must not fail
+        rec.hit("plugin.option")
+        rec.case(["plugin-definitions"], nontrivial=True)
+        rec.crash("plugin/getSettings", e, {"options": C17_OPTIONS, "defaults": C17_DEFAULTS})
+        return
     assert "c17FlagsA" in ctx.D and type(live(settings.Settings())["c17FlagsB"]).__name__ == "FlagListSetting"
+    check_contributions(ctx, rec, rng, stockD)
     names = sorted(Flags.fields())  # public: {name: int value}
     members = [getattr(Flags, nm) for nm in names]
     rec.note("n_flag_members", len(members))
@@ -1501,6 +1920,20 @@ def do_flags(spec, rec, rng):
                     rec.violation("flaglist/assign-holds-other-flags", "%s = %s holds %s" % (n, show(v), show(held(src, n))), {"setting": n, "value": show(v)})
         style = r.choice(STYLES)
         user = r.sample(ctx.names, r.randint(0, 5)) if style == "medium" else []
+        # settings modified by plugin Options / Defaults: a contributed option, a stock option, or the OLD default value
+        for n in r.sample(C17_MODIFIED, r.randint(0, 3)):
+            pool = expected_options(n, stockD)
+            old_default = stockD[n].default if n in stockD else C17_OWN_OLD_DEFAULT[n]
+            if admits_expected(n, old_default, stockD):
+                pool.append(old_default)
+            if not pool:
+                continue
+            v = copy.deepcopy(r.choice(pool))
+            try:
+                src[n] = v
+                changed[n] = "plugin-option-or-old-default"
+            except Exception as e:
+                rec.violation("plugin/option/not-admitted", "%s = %s refused (%s) although it is an option / a value of the setting's type" % (n, show(v), type(e).__name__), {"setting": n, "value": show(v)})
         for _ in range(r.randint(0, 4)):
             n = r.choice(stock)
             fv = ctx.first_valid(n)
@@ -1512,11 +1945,15 @@ def do_flags(spec, rec, rng):
                     pass
         apply_workaround(ctx, src, changed, style, user)
         rec.hit("flaglist.roundtrip")
-        t = roundtrip(ctx, src, style, user, changed, "flags")
+        t = roundtrip(ctx, src, style, user, changed, "flags", gen2=True)
         rec.case(["flags", style, sorted((n, json.dumps(canon(held(src, n)))[:200]) for n in changed)], nontrivial=bool(changed),
                  sample={"flag lists": {n: show(held(src, n)) for n in changed if n.startswith("c17")}, "style": style} if i < 2 else None)
         if r.random() < 0.4:
             check_copies(ctx, t if t is not None else src, r, changed, _picker(ctx, True), _picker(ctx, False), "flags")
+        if i % 10 == 0:
+            for n in ("c17FlagsA", "c17FlagsB"):
+                if changed.get(n) == "flaglist":
+                    check_instance_subclass(ctx, n, "flaglist", list(held(src, n)))
         # near-misses
         n = r.choice(["c17FlagsA", "c17FlagsB"])
         bad = r.choice(["FUEL", 5, None, [5], ["NOT_A_FLAG_NAME"], [["FUEL"]], {"FUEL": 1}, ["FUEL", None], [1.5], ("FUEL",)])
